@@ -306,7 +306,41 @@ static int replay_twice(hctx* h, const h_line* l) {
 }
 const h_component comp_twice = { "twice", gen_twice, replay_twice };
 
+/* directed: page bodies that meet the boundary conditions of the built-in codecs INSIDE a file.  One REQUIRED BYTE_ARRAY column,
+ * one row, one page: the value is a blob of random bytes in which short blocks (4..11 bytes, sometimes longer) are repeated at
+ * chosen distances (the copy-element offset limits 2047/2048/2049, the 16-bit limits, the LZ4 64 KiB window); the page body is the
+ * 4-byte length followed by the blob, so distances survive.  kind 1: long incompressible stretches between repeats (literal
+ * length encodings at 60 / 256 / 65536). */
+static void gen_blob_case(hctx* h, fcase* fc, int codec, int kind, size_t n) {
+    memset(fc, 0, sizeof *fc);
+    fc->ncols = 1; snprintf(fc->cols[0].name, sizeof fc->cols[0].name, "b"); fc->cols[0].rep = 0; fc->cols[0].ptype = 6; fc->cols[0].tlen = 0;
+    fc->codec = codec; fc->page = 1024 * 1024; fc->nsteps = 1;
+    fstep* t = &fc->steps[0]; t->kind = 0; t->col = 0; t->has_defs = 0; t->has_reps = 0;
+    t->nrows = 1; t->nvals = 1; t->defs = (uint8_t*)h_alloc(1); t->defs[0] = 1; t->reps = (uint8_t*)h_alloc(1); t->reps[0] = 0;
+    t->vals = (uint8_t**)h_alloc(sizeof(uint8_t*)); t->vlen = (int*)h_alloc(sizeof(int));
+    uint8_t* p = h_alloc(n); t->vals[0] = p; t->vlen[0] = (int)n;
+    for (size_t i = 0; i < n; i++) p[i] = (uint8_t)h_next(h);
+    static const size_t near[] = { 2047, 2048, 2049, 2048, 2048, 1, 8, 255, 256 };
+    static const size_t far[] = { 32767, 32768, 32769, 65535, 65536, 65537, 2048, 2048 };
+    size_t reps = kind == 1 ? 1 + n / 1500 : 1 + n / 40;
+    for (size_t r = 0; r < reps && n > 16; r++) {
+        size_t d = (n > 70000 && h_chance(h, 1, 2)) ? far[h_below(h, sizeof far / sizeof far[0])] : near[h_below(h, sizeof near / sizeof near[0])];
+        if (d >= n) d = 1 + (size_t)h_below(h, n - 1);
+        size_t len = 4 + (size_t)h_below(h, 8);
+        if (h_chance(h, 1, 6)) len = 12 + (size_t)h_below(h, 70);
+        size_t at = d + (size_t)h_below(h, n - d);
+        for (size_t i = 0; i < len && at + i < n; i++) p[at + i] = p[at + i - d];
+    }
+}
+
 static void gen_file(hctx* h) {
+    { static const int bc[] = { 1, 5, 7, 6, 2, 0 };
+      for (int ci = 0; ci < (h->thorough ? 6 : 3); ci++) {
+          fcase fc;
+          gen_blob_case(h, &fc, bc[ci], 0, 9000 + (size_t)h_below(h, 3000)); run_case(h, &fc); free_case(&fc);
+          gen_blob_case(h, &fc, bc[ci], 1, 70000 + (size_t)h_below(h, 9000)); run_case(h, &fc); free_case(&fc);
+          if (h->thorough) { gen_blob_case(h, &fc, bc[ci], 0, 140000 + (size_t)h_below(h, 9000)); run_case(h, &fc); free_case(&fc); }
+      } }
     long n = h->thorough ? 6000 : 350;
     for (long i = 0; i < n; i++) {
         fcase fc; gen_case(h, &fc, i % 3 == 0);
